@@ -249,3 +249,163 @@ proof fn lemma_codec_table_patch(w_mid: WritableBuffer, w_pre: WritableBuffer, w
 pub proof fn lemma_be32_div_mod(v: u32)
     ensures be32((v / 16777216) as u8, ((v / 65536) % 256) as u8, ((v / 256) % 256) as u8, (v % 256) as u8) == v
 {}
+
+// ---- RDATA (C04): what the encoder writes for a record's data, and that an independent decoder reads exactly that data back
+pub open spec fn u16b(v: u16) -> Seq<u8> { seq![(v / 256) as u8, (v % 256) as u8] }
+pub open spec fn u32b(v: u32) -> Seq<u8> { seq![(v / 16777216) as u8, ((v / 65536) % 256) as u8, ((v / 256) % 256) as u8, (v % 256) as u8] }
+pub open spec fn nb(n: DomainName) -> Seq<u8> { enc_labels(n.labels@) }
+// names inside RDATA are written in full (never as a pointer)
+pub open spec fn rdata_enc(d: RecordTypeWithData) -> Seq<u8> {
+    match d {
+        RecordTypeWithData::A { address } => v4_octets(address),
+        RecordTypeWithData::NS { nsdname } => nb(nsdname),
+        RecordTypeWithData::MD { madname } => nb(madname),
+        RecordTypeWithData::MF { madname } => nb(madname),
+        RecordTypeWithData::CNAME { cname } => nb(cname),
+        RecordTypeWithData::SOA { mname, rname, serial, refresh, retry, expire, minimum } => nb(mname) + nb(rname) + u32b(serial) + u32b(refresh) + u32b(retry) + u32b(expire) + u32b(minimum),
+        RecordTypeWithData::MB { madname } => nb(madname),
+        RecordTypeWithData::MG { mdmname } => nb(mdmname),
+        RecordTypeWithData::MR { newname } => nb(newname),
+        RecordTypeWithData::NULL { octets } => bv(&octets),
+        RecordTypeWithData::WKS { octets } => bv(&octets),
+        RecordTypeWithData::PTR { ptrdname } => nb(ptrdname),
+        RecordTypeWithData::HINFO { octets } => bv(&octets),
+        RecordTypeWithData::MINFO { rmailbx, emailbx } => nb(rmailbx) + nb(emailbx),
+        RecordTypeWithData::MX { preference, exchange } => u16b(preference) + nb(exchange),
+        RecordTypeWithData::TXT { octets } => bv(&octets),
+        RecordTypeWithData::AAAA { address } => v6_octets(address),
+        RecordTypeWithData::SRV { priority, weight, port, target } => u16b(priority) + u16b(weight) + u16b(port) + nb(target),
+        RecordTypeWithData::Unknown { octets, .. } => bv(&octets),
+    }
+}
+// a name written in full at offset q reads back as that name and ends where its labels end
+pub proof fn lemma_plain_name_back(b: Seq<u8>, q: int, n: DomainName)
+    requires n.wf(), 0 <= q, q + nb(n).len() <= b.len(), b.subrange(q, q + nb(n).len()) == nb(n)
+    ensures name_at(b, q) == Some((vals(n.labels@), q + nb(n).len())), nb(n).len() == labels_sum(n.labels@), nb(n).len() >= 1
+{
+    lemma_enc_labels_len(n.labels@);
+    lemma_decode_plain(b, q, q, n.labels@);
+    lemma_vsum_vals(n.labels@);
+    lemma_labels_sum_lower(n.labels@);
+}
+pub proof fn lemma_u32_back(b: Seq<u8>, q: int, v: u32)
+    requires 0 <= q, q + 4 <= b.len(), b.subrange(q, q + 4) == u32b(v)
+    ensures u32_at(b, q) == v
+{
+    lemma_be32_div_mod(v);
+    assert(b[q] == b.subrange(q, q + 4)[0] && b[q + 1] == b.subrange(q, q + 4)[1] && b[q + 2] == b.subrange(q, q + 4)[2] && b[q + 3] == b.subrange(q, q + 4)[3]);
+}
+pub proof fn lemma_u16_back(b: Seq<u8>, q: int, v: u16)
+    requires 0 <= q, q + 2 <= b.len(), b.subrange(q, q + 2) == u16b(v)
+    ensures u16_at(b, q) == v
+{
+    lemma_be16_div_mod(v);
+    assert(b[q] == b.subrange(q, q + 2)[0] && b[q + 1] == b.subrange(q, q + 2)[1]);
+}
+// sub-slices of a slice that is a concatenation
+pub proof fn lemma_sub_concat(b: Seq<u8>, p: int, x: Seq<u8>, y: Seq<u8>)
+    requires 0 <= p, p + x.len() + y.len() <= b.len(), b.subrange(p, p + x.len() + y.len()) == x + y
+    ensures b.subrange(p, p + x.len()) == x, b.subrange(p + x.len(), p + x.len() + y.len()) == y
+{
+    let s = b.subrange(p, p + x.len() + y.len());
+    assert(b.subrange(p, p + x.len()) =~= x) by { assert forall|i: int| 0 <= i < x.len() implies b.subrange(p, p + x.len())[i] == x[i] by { assert(s[i] == (x + y)[i]); } }
+    assert(b.subrange(p + x.len(), p + x.len() + y.len()) =~= y) by { assert forall|i: int| 0 <= i < y.len() implies b.subrange(p + x.len(), p + x.len() + y.len())[i] == y[i] by { assert(s[x.len() + i] == (x + y)[x.len() + i]); } }
+}
+proof fn lemma_rd_a(b: Seq<u8>, p: int, d: RecordTypeWithData)
+    requires d is A, 0 <= p, p + rdata_enc(d).len() <= b.len(), b.subrange(p, p + rdata_enc(d).len()) == rdata_enc(d)
+    ensures rdata_end(RecordType::A, b, p, rdata_enc(d).len() as int) == Some(p + rdata_enc(d).len()), rdata_is(d, RecordType::A, b, p, rdata_enc(d).len() as int),
+{
+    broadcast use axiom_v4_octets;
+    let s = b.subrange(p, p + 4);
+    assert(b[p] == s[0] && b[p + 1] == s[1] && b[p + 2] == s[2] && b[p + 3] == s[3]);
+}
+proof fn lemma_rd_aaaa(b: Seq<u8>, p: int, d: RecordTypeWithData)
+    requires d is AAAA, 0 <= p, p + rdata_enc(d).len() <= b.len(), b.subrange(p, p + rdata_enc(d).len()) == rdata_enc(d)
+    ensures rdata_end(RecordType::AAAA, b, p, rdata_enc(d).len() as int) == Some(p + rdata_enc(d).len()), rdata_is(d, RecordType::AAAA, b, p, rdata_enc(d).len() as int),
+{
+    broadcast use axiom_v6_octets;
+    let s = b.subrange(p, p + 16);
+    assert(b[p] == s[0] && b[p + 1] == s[1] && b[p + 2] == s[2] && b[p + 3] == s[3] && b[p + 4] == s[4] && b[p + 5] == s[5] && b[p + 6] == s[6] && b[p + 7] == s[7]);
+    assert(b[p + 8] == s[8] && b[p + 9] == s[9] && b[p + 10] == s[10] && b[p + 11] == s[11] && b[p + 12] == s[12] && b[p + 13] == s[13] && b[p + 14] == s[14] && b[p + 15] == s[15]);
+}
+proof fn lemma_rd_minfo(b: Seq<u8>, p: int, d: RecordTypeWithData)
+    requires d is MINFO, rr_names_wf(d), 0 <= p, p + rdata_enc(d).len() <= b.len(), b.subrange(p, p + rdata_enc(d).len()) == rdata_enc(d)
+    ensures rdata_end(RecordType::MINFO, b, p, rdata_enc(d).len() as int) == Some(p + rdata_enc(d).len()), rdata_is(d, RecordType::MINFO, b, p, rdata_enc(d).len() as int),
+{
+    let rmailbx = d->MINFO_rmailbx; let emailbx = d->MINFO_emailbx;
+    lemma_sub_concat(b, p, nb(rmailbx), nb(emailbx));
+    lemma_plain_name_back(b, p, rmailbx);
+    lemma_plain_name_back(b, p + nb(rmailbx).len(), emailbx);
+}
+proof fn lemma_rd_mx(b: Seq<u8>, p: int, d: RecordTypeWithData)
+    requires d is MX, rr_names_wf(d), 0 <= p, p + rdata_enc(d).len() <= b.len(), b.subrange(p, p + rdata_enc(d).len()) == rdata_enc(d)
+    ensures rdata_end(RecordType::MX, b, p, rdata_enc(d).len() as int) == Some(p + rdata_enc(d).len()), rdata_is(d, RecordType::MX, b, p, rdata_enc(d).len() as int),
+{
+    let preference = d->MX_preference; let exchange = d->MX_exchange;
+    lemma_sub_concat(b, p, u16b(preference), nb(exchange));
+    lemma_u16_back(b, p, preference);
+    lemma_plain_name_back(b, p + 2, exchange);
+}
+proof fn lemma_rd_srv(b: Seq<u8>, p: int, d: RecordTypeWithData)
+    requires d is SRV, rr_names_wf(d), 0 <= p, p + rdata_enc(d).len() <= b.len(), b.subrange(p, p + rdata_enc(d).len()) == rdata_enc(d)
+    ensures rdata_end(RecordType::SRV, b, p, rdata_enc(d).len() as int) == Some(p + rdata_enc(d).len()), rdata_is(d, RecordType::SRV, b, p, rdata_enc(d).len() as int),
+{
+    let priority = d->SRV_priority; let weight = d->SRV_weight; let port = d->SRV_port; let target = d->SRV_target;
+    let x = u16b(priority) + u16b(weight) + u16b(port);
+    assert(rdata_enc(d) =~= x + nb(target));
+    lemma_sub_concat(b, p, x, nb(target));
+    assert(x =~= u16b(priority) + (u16b(weight) + u16b(port)));
+    lemma_sub_concat(b, p, u16b(priority), u16b(weight) + u16b(port));
+    lemma_sub_concat(b, p + 2, u16b(weight), u16b(port));
+    lemma_u16_back(b, p, priority); lemma_u16_back(b, p + 2, weight); lemma_u16_back(b, p + 4, port);
+    lemma_plain_name_back(b, p + 6, target);
+}
+proof fn lemma_rd_soa(b: Seq<u8>, p: int, d: RecordTypeWithData)
+    requires d is SOA, rr_names_wf(d), 0 <= p, p + rdata_enc(d).len() <= b.len(), b.subrange(p, p + rdata_enc(d).len()) == rdata_enc(d)
+    ensures rdata_end(RecordType::SOA, b, p, rdata_enc(d).len() as int) == Some(p + rdata_enc(d).len()), rdata_is(d, RecordType::SOA, b, p, rdata_enc(d).len() as int),
+{
+    let mname = d->SOA_mname; let rname = d->SOA_rname; let serial = d->SOA_serial; let refresh = d->SOA_refresh; let retry = d->SOA_retry; let expire = d->SOA_expire; let minimum = d->SOA_minimum;
+    let n3 = u32b(retry) + u32b(expire) + u32b(minimum);
+    let n4 = u32b(refresh) + u32b(retry) + u32b(expire) + u32b(minimum);
+    let nums = u32b(serial) + u32b(refresh) + u32b(retry) + u32b(expire) + u32b(minimum);
+    assert(rdata_enc(d) =~= nb(mname) + (nb(rname) + nums));
+    lemma_sub_concat(b, p, nb(mname), nb(rname) + nums);
+    let p1 = p + nb(mname).len();
+    lemma_sub_concat(b, p1, nb(rname), nums);
+    let q = p1 + nb(rname).len();
+    lemma_plain_name_back(b, p, mname);
+    lemma_plain_name_back(b, p1, rname);
+    assert(nums =~= u32b(serial) + n4);
+    lemma_sub_concat(b, q, u32b(serial), n4);
+    assert(n4 =~= u32b(refresh) + n3);
+    lemma_sub_concat(b, q + 4, u32b(refresh), n3);
+    assert(n3 =~= u32b(retry) + (u32b(expire) + u32b(minimum)));
+    lemma_sub_concat(b, q + 8, u32b(retry), u32b(expire) + u32b(minimum));
+    lemma_sub_concat(b, q + 12, u32b(expire), u32b(minimum));
+    lemma_u32_back(b, q, serial); lemma_u32_back(b, q + 4, refresh); lemma_u32_back(b, q + 8, retry); lemma_u32_back(b, q + 12, expire); lemma_u32_back(b, q + 16, minimum);
+}
+// C04: the RDATA the encoder writes reads back, through the independent decoder of unit wire_decode, as the same data, and spans
+// exactly the octets written
+pub proof fn lemma_rdata_reads_back(b: Seq<u8>, p: int, d: RecordTypeWithData)
+    requires rr_names_wf(d), 0 <= p, p + rdata_enc(d).len() <= b.len(), b.subrange(p, p + rdata_enc(d).len()) == rdata_enc(d)
+    ensures rdata_end(spec_rtype_of(d), b, p, rdata_enc(d).len() as int) == Some(p + rdata_enc(d).len()), // [C04:written_rdata_is_well_formed_for_its_type]
+        rdata_is(d, spec_rtype_of(d), b, p, rdata_enc(d).len() as int), // [C04:written_rdata_reads_back_as_the_same_data]
+{
+    match d {
+        RecordTypeWithData::A { .. } => { lemma_rd_a(b, p, d); }
+        RecordTypeWithData::AAAA { .. } => { lemma_rd_aaaa(b, p, d); }
+        RecordTypeWithData::NS { nsdname } => { lemma_plain_name_back(b, p, nsdname); }
+        RecordTypeWithData::MD { madname } => { lemma_plain_name_back(b, p, madname); }
+        RecordTypeWithData::MF { madname } => { lemma_plain_name_back(b, p, madname); }
+        RecordTypeWithData::CNAME { cname } => { lemma_plain_name_back(b, p, cname); }
+        RecordTypeWithData::MB { madname } => { lemma_plain_name_back(b, p, madname); }
+        RecordTypeWithData::MG { mdmname } => { lemma_plain_name_back(b, p, mdmname); }
+        RecordTypeWithData::MR { newname } => { lemma_plain_name_back(b, p, newname); }
+        RecordTypeWithData::PTR { ptrdname } => { lemma_plain_name_back(b, p, ptrdname); }
+        RecordTypeWithData::MINFO { .. } => { lemma_rd_minfo(b, p, d); }
+        RecordTypeWithData::MX { .. } => { lemma_rd_mx(b, p, d); }
+        RecordTypeWithData::SRV { .. } => { lemma_rd_srv(b, p, d); }
+        RecordTypeWithData::SOA { .. } => { lemma_rd_soa(b, p, d); }
+        _ => {}
+    }
+}
